@@ -124,6 +124,10 @@ impl Hist {
 				if coin.coinbase && h < o.height + mat {
 					continue;
 				}
+				// dust (left-over change of earlier spends) cannot pay a fee
+				if coin.value < 1000 {
+					continue;
+				}
 				v.push(coin.clone());
 			}
 		}
@@ -176,15 +180,20 @@ impl Hist {
 
 	/// A transaction spending `inputs` into `n_out` fresh outputs.
 	pub fn spend_tx(&mut self, inputs: &[Coin], n_out: usize, features: Option<KernelFeatures>) -> Transaction {
-		let fee = 1_000_000 * (1 + self.prng.below(4));
 		let total: u64 = inputs.iter().map(|c| c.value).sum();
+		assert!(total >= 4, "coins too small to spend");
+		// small coins (change of earlier spends) pay a proportionally small fee
+		let fee = (1_000_000 * (1 + self.prng.below(4))).min(total / 4).max(1);
 		let mut outs = vec![];
 		let mut left = total - fee;
+		let n_out = n_out.min(left as usize).max(1);
 		for i in 0..n_out {
+			let remaining = (n_out - 1 - i) as u64;
 			let v = if i + 1 == n_out {
 				left
 			} else {
-				1 + self.prng.below(left / 2)
+				// leave at least 1 for each remaining output
+				1 + self.prng.below(((left - remaining) / 2).max(1))
 			};
 			left -= v;
 			outs.push((v, self.fresh_key()));
@@ -201,6 +210,7 @@ impl Hist {
 		};
 		let mut p = self.prng.fork(7);
 		let (tx, coins) = self.world.tx(&mut p, inputs, &outs, feat);
+
 		self.register(&coins);
 		tx
 	}
